@@ -3,9 +3,9 @@
    environment (the "truly stereogenic" branch) and a computable sign.  Then no group is ever handed to the flip-half heuristic,
    the update dict is the same finite map, the members left in the sets are the same up to order, and `_morgan` gets the same
    input, call by call.  The hypothesis [uniform_run] speaks about the run on ONE order only. *)
-From Coq Require Import ZArith List Bool Lia Permutation Arith.
+From Coq Require Import ZArith List Bool Lia Permutation Arith String.
 From Model Require Import PyBase PyHash Graph Morgan Stereo Writer ChiralMorgan.
-From Proofs Require Import MorganProofs WriterInvProofs WriterStereoExt ChiralMorganProofs.
+From Proofs Require Import MorganProofs WriterInvProofs WriterStereoExt ChiralMorganProofs EqHashExt.
 Import ListNotations.
 Open Scope Z_scope.
 
@@ -508,4 +508,25 @@ Proof.
   - apply chiral_morgan_order_independent_b; [cbn; apply perm_swap | apply Permutation_refl | apply Permutation_refl | exact Hu].
   - destruct chiral_morgan_example as (_ & _ & _ & E & _). rewrite E. eexists. eexists. split; [reflexivity|]. split; [discriminate|].
     cbn. repeat constructor; cbn; intuition discriminate.
+Qed.
+
+(* == and hash of such a molecule and its renumbered copy, the weights being what the chiral-Morgan model computes on each side *)
+Theorem canonical_eq_hash_renumbering_uniform (h : list Z -> Z) (str_hash : string -> Z) (ring ring' : Z -> bool) (g : mol) (s tb tb' : Z -> Z)
+  (o : opts) (tabs : stabs) (ctabs : cmtabs) (ord ord2 : cmorders) (ao W : labels) (tr : list labels) :
+  wf_mol g = true -> (forall x y, s x = s y -> x = y) -> s 0 = 0 -> (forall n, In n (ids g) -> ring' (s n) = ring n) -> o_mapping o = false ->
+  atoms_order h ring g = Ok ao ->
+  uniform_run_b h g ctabs (diff_fuel ord) ao (o_atoms ord) (o_ct ord) (o_al ord) = true ->
+  chiral_morgan h g ctabs ao ord = Ok (W, tr) -> inj_on (ids g) (lbl W) ->
+  Permutation (map s (o_atoms ord)) (o_atoms ord2) -> Permutation (map (ren_pairv s) (o_ct ord)) (o_ct ord2) ->
+  Permutation (map s (o_al ord)) (o_al ord2) ->
+  exists W', chiral_morgan h (ren_mol s g) (ren_cmtabs s ctabs) (ren_labels s ao) ord2 = Ok (W', map (ren_labels s) tr) /\
+    let d := mkDesc g (lbl W) tb tabs in let d' := mkDesc (ren_mol s g) (lbl W') tb' (ren_tabs s tabs) in
+    mol_eq (canon_of o) d' d = true /\ mol_hash (canon_of o) str_hash d' = mol_hash (canon_of o) str_hash d.
+Proof.
+  intros Hwf Hs H0 Hr Hmp Hao Hu Hcm Hinj H1 H2 H3.
+  destruct (canonical_string_renumbering_uniform h ring ring' g s tb tb' o tabs ctabs ord ord2 ao W tr Hwf Hs H0 Hr Hmp Hao Hu Hcm Hinj H1 H2 H3)
+    as (_ & E2 & E3).
+  exists (ren_labels s W). split; [exact E2|]. intros d d'.
+  assert (canon_of o d' = canon_of o d) as E by (apply (canon_of_map_order o d d' s); exact E3).
+  unfold mol_eq, mol_hash. rewrite E. split; [apply String.eqb_refl | reflexivity].
 Qed.
